@@ -11,6 +11,7 @@ import (
 	"io"
 	"net/url"
 	"runtime"
+	"sort"
 	"strings"
 	"sync"
 	"sync/atomic"
@@ -112,19 +113,20 @@ type Op struct {
 
 // Script is one generated RPC program.
 type Script struct {
-	Kind      Kind              `json:"kind"`
-	ReqMD     metadata.MD       `json:"req_md,omitempty"`
-	UnaryReq  *tpb.Message      `json:"-"`
-	Sender    []Op              `json:"sender,omitempty"`   // client ops, goroutine 1 (for unary: ignored)
-	Receiver  []Op              `json:"receiver,omitempty"` // client ops, goroutine 2 (optional)
-	Handler   []Op              `json:"handler,omitempty"`
-	Resp      *tpb.Message      `json:"-"` // unary response (nil allowed)
-	Ret       Ret               `json:"ret"`
-	NHdrOpt   int               `json:"n_header_opts,omitempty"`
-	NTrlOpt   int               `json:"n_trailer_opts,omitempty"`
-	PeerOpt   bool              `json:"peer_opt,omitempty"`
-	ReuseDest bool              `json:"reuse_dest,omitempty"` // each side receives every message into one and the same message value
-	CredMD    map[string]string `json:"cred_md,omitempty"`    // metadata of per-RPC credentials attached to the call
+	Kind         Kind              `json:"kind"`
+	ReqMD        metadata.MD       `json:"req_md,omitempty"`
+	UnaryReq     *tpb.Message      `json:"-"`
+	Sender       []Op              `json:"sender,omitempty"`   // client ops, goroutine 1 (for unary: ignored)
+	Receiver     []Op              `json:"receiver,omitempty"` // client ops, goroutine 2 (optional)
+	Handler      []Op              `json:"handler,omitempty"`
+	Resp         *tpb.Message      `json:"-"` // unary response (nil allowed)
+	Ret          Ret               `json:"ret"`
+	NHdrOpt      int               `json:"n_header_opts,omitempty"`
+	NTrlOpt      int               `json:"n_trailer_opts,omitempty"`
+	PeerOpt      bool              `json:"peer_opt,omitempty"`
+	ReuseDest    bool              `json:"reuse_dest,omitempty"`     // each side receives every message into one and the same message value
+	CredMD       map[string]string `json:"cred_md,omitempty"`        // metadata of per-RPC credentials attached to the call
+	NoAppendedMD bool              `json:"no_appended_md,omitempty"` // all request metadata goes through NewOutgoingContext
 	// RecvFirst makes the receiver goroutine start only after the sender
 	// goroutine has finished (needed for HTTP half-duplex).
 	RecvAfterSend bool `json:"recv_after_send,omitempty"`
@@ -750,7 +752,32 @@ func (r *Run) Exec(cc grpc.ClientConnInterface, parent context.Context, watchdog
 	}
 	md.Set(runKey, r.ID)
 	r.OutMD = md
-	ctx, cancel := context.WithCancel(metadata.NewOutgoingContext(parent, md))
+	// callers attach metadata in two ways: as a whole (NewOutgoingContext) and pair by pair
+	// (AppendToOutgoingContext, e.g. by interceptors); every key of the script takes one of the two routes
+	base, appended := md, []string(nil)
+	if !r.S.NoAppendedMD && len(r.S.ReqMD) > 1 {
+		base = metadata.MD{}
+		keys := make([]string, 0, len(md))
+		for k := range md {
+			keys = append(keys, k)
+		}
+		sort.Strings(keys)
+		for i, k := range keys {
+			if k != runKey && i%2 == 1 {
+				for _, v := range md[k] {
+					appended = append(appended, k, v)
+				}
+			} else {
+				base[k] = md[k]
+			}
+		}
+		r.OutMD = base
+	}
+	octx := metadata.NewOutgoingContext(parent, base)
+	if len(appended) > 0 {
+		octx = metadata.AppendToOutgoingContext(octx, appended...)
+	}
+	ctx, cancel := context.WithCancel(octx)
 	r.Ctx, r.Cancel = ctx, cancel
 
 	var opts []grpc.CallOption
